@@ -176,6 +176,21 @@ pub fn variants(tier: Tier) -> Vec<WorldSpec> {
     let mut s = cost_spec("W-cost-mecab");
     s.plugins = json!({"oovProviderPlugin": [mecab_oov(true), simple_oov(4, 2, 8000, P_SYM, true)]});
     v.push(s);
+    // words that use connection id 0 (the id of the sentence start / end) on either side, and a
+    // matrix whose cell (0,0) is not zero: nothing about id 0 is special for a word
+    let mut s = cost_spec("W-cost-id-zero");
+    s.matrix = Matrix::generate(6, 6, |l, r| 777 + ((l * 6 + r) as i32 * 131) % 1999 - 400 * ((l + r) as i32 % 3));
+    for (i, r) in s.system.iter_mut().enumerate() {
+        if r.left >= 0 {
+            r.left = pseudo(i, 7) % 6;
+        }
+        r.right = pseudo(i, 8) % 6;
+    }
+    s.system[0].left = 0;
+    s.system[0].right = 0;
+    s.system.push(Row::new("い", 0, 0, 2100, P_NOUN));
+    s.system.push(Row::new("あい", 0, 3, 2600, P_NOUN));
+    v.push(s);
     if tier == Tier::Thorough {
         let mut s = cost_spec("W-cost-negative");
         for (i, r) in s.system.iter_mut().enumerate() {
